@@ -126,7 +126,57 @@ func (c *Ctx) refKindOf(v ssa.Value, depth int) string {
 			}
 		}
 	}
+	// a field of a reservation object (`r.ref` of `&reservation{ref: ref, key: key}`): what is stored into that field
+	if f, _ := anyFieldRead(v); f != nil {
+		kind, n := "", 0
+		for _, fn := range c.FuncsIn(pkgCommand) {
+			for _, b := range fn.Blocks {
+				for _, ins := range b.Instrs {
+					if sv, _, ok := storeToField(ins, f); ok {
+						n++
+						k := c.refKindOf(sv, depth+1)
+						if k == "" || (kind != "" && k != kind) {
+							return ""
+						}
+						kind = k
+					}
+				}
+			}
+		}
+		if n > 0 {
+			return kind
+		}
+	}
 	return ""
+}
+
+// isReservationWrapper: fn takes a reservation and hands it to its caller (it returns a releaser: a function value
+// or an object): the span is decided in the callers, where the wrapper is analysed inline.
+func (m *cmdModel) isReservationWrapper(c *Ctx, fn *ssa.Function) bool {
+	if len(c.CallersOf(fn)) == 0 || fn.Parent() != nil {
+		return false
+	}
+	releases := false
+	allCalls(fn, func(ci ssa.CallInstruction) {
+		if callsFn(ci, m.release) {
+			releases = true
+		}
+	})
+	if releases {
+		return false
+	}
+	rs := fn.Signature.Results()
+	for i := 0; i < rs.Len(); i++ {
+		switch t := rs.At(i).Type().Underlying().(type) {
+		case *types.Signature:
+			return true
+		case *types.Pointer:
+			if _, ok := t.Elem().Underlying().(*types.Struct); ok {
+				return true
+			}
+		}
+	}
+	return false
 }
 
 const (
@@ -159,6 +209,16 @@ func ruleR07a(c *Ctx) {
 			}
 		})
 		if keyVal == nil {
+			// the reservation taken through a wrapper that hands back a releaser (`reservation, err := e.reserveIdempotencyKey(ik)`)
+			allCalls(fn, func(ci ssa.CallInstruction) {
+				if g := staticCallee(ci); g != nil && fnPkgPath(origin(g)) == pkgCommand && m.isReservationWrapper(c, g) && m.reachesTake(c, g, "referenceIks") {
+					if args := ci.Common().Args; len(args) > 0 {
+						keyVal = args[len(args)-1]
+					}
+				}
+			})
+		}
+		if keyVal == nil || m.isReservationWrapper(c, fn) {
 			continue
 		}
 		nFns++
@@ -199,6 +259,9 @@ func ruleR07a(c *Ctx) {
 				if k, _, ok := m.releaseKind(c, d); ok && k == "referenceIks" {
 					return 0
 				}
+				if m.releasesKind(c, d, "referenceIks") {
+					return 0 // `defer reservation.release()`
+				}
 				return -1
 			},
 			RunDeferred: func(pc *PathCtx, s uint64, d *ssa.Defer) uint64 { return release(pc, s, d.Pos()) },
@@ -213,6 +276,9 @@ func ruleR07a(c *Ctx) {
 						return (s | rvTAKEN) &^ rvRELEASED
 					}
 					if k, _, ok := m.releaseKind(c, x); ok && k == "referenceIks" {
+						return release(pc, s, x.Pos())
+					}
+					if m.releasesKind(c, x, "referenceIks") {
 						return release(pc, s, x.Pos())
 					}
 					if isCallTo(x, m.readLogIK) && ifaceMethodOf(x) != nil {
@@ -389,7 +455,7 @@ func logIsStamped(c *Ctx, m *cmdModel, v ssa.Value, depth int, seen map[ssa.Valu
 	switch x := v.(type) {
 	case *ssa.Call:
 		if isCallTo(x, m.withIK) {
-			if _, ok := fieldRead(x.Call.Args[1], m.fIK); ok {
+			if isRequestKeyValue(c, m, x.Call.Args[1], 0) {
 				return ""
 			}
 			return "WithIdempotencyKey called with something else than Parameters.IdempotencyKey"
@@ -455,12 +521,12 @@ func builderStamps(c *Ctx, m *cmdModel, fn *ssa.Function, depth int, seen map[ss
 	pr := &PathRule{
 		Step: func(pc *PathCtx, s uint64, ins ssa.Instruction) uint64 {
 			if call, ok := ins.(*ssa.Call); ok && isCallTo(call, m.withIK) {
-				if _, ok := fieldRead(call.Call.Args[1], m.fIK); ok {
+				if isRequestKeyValue(c, m, call.Call.Args[1], 0) {
 					return s | stamped
 				}
 			}
 			if v, _, ok := storeToField(ins, m.fLogIK); ok {
-				if _, ok := fieldRead(v, m.fIK); ok {
+				if isRequestKeyValue(c, m, v, 0) {
 					return s | stamped
 				}
 			}
@@ -468,7 +534,7 @@ func builderStamps(c *Ctx, m *cmdModel, fn *ssa.Function, depth int, seen map[ss
 		},
 		Edge: func(pc *PathCtx, s uint64, from *ssa.BasicBlock, si int) (uint64, bool) {
 			for _, f := range pc.edgeFacts(from, si) {
-				if _, isIK := fieldRead(f.X, m.fIK); isIK {
+				if isRequestKeyValue(c, m, f.X, 0) {
 					if str, ok := constString(f.Y); ok && str == "" {
 						if f.Eq {
 							s |= empty
@@ -644,6 +710,19 @@ func (m *cmdModel) releasesKind(c *Ctx, ci ssa.CallInstruction, kind string) boo
 		return k == kind
 	}
 	cc := ci.Common()
+	if g := cc.StaticCallee(); g != nil && !cc.IsInvoke() {
+		// a method of a reservation object: `func (r *reservation) release() { r.referencer.release(r.ref, r.key) }`
+		if g == m.release || len(g.Blocks) == 0 || fnPkgPath(origin(g)) != pkgCommand || g.Signature.Results().Len() > 0 {
+			return false
+		}
+		found := false
+		allCalls(g, func(x ssa.CallInstruction) {
+			if k, _, ok := m.releaseKind(c, x); ok && k == kind {
+				found = true
+			}
+		})
+		return found
+	}
 	if cc.IsInvoke() || cc.StaticCallee() != nil {
 		return false
 	}
@@ -1515,4 +1594,35 @@ func sqlLocalInits(b []sqlTok) map[string][]sqlTok {
 		}
 	}
 	return out
+}
+
+// isRequestKeyValue: v is Parameters.IdempotencyKey — read directly, captured by a builder adapter, or handed down
+// through a parameter that every call site binds to it (`logComputer.withIdempotencyKey(e.parameters.IdempotencyKey)`).
+func isRequestKeyValue(c *Ctx, m *cmdModel, v ssa.Value, depth int) bool {
+	if depth > 5 || v == nil {
+		return false
+	}
+	v = strip(v)
+	if _, ok := fieldRead(v, m.fIK); ok {
+		return true
+	}
+	v = normCaptured(v)
+	if _, ok := fieldRead(v, m.fIK); ok {
+		return true
+	}
+	p, ok := v.(*ssa.Parameter)
+	if !ok {
+		return false
+	}
+	sites := c.CallersOf(p.Parent())
+	idx := paramIndex(p)
+	if len(sites) == 0 || idx < 0 {
+		return false
+	}
+	for _, s := range sites {
+		if idx >= len(s.Common().Args) || !isRequestKeyValue(c, m, s.Common().Args[idx], depth+1) {
+			return false
+		}
+	}
+	return true
 }
